@@ -1,1 +1,111 @@
-/-! Property theorems for C03 (only property-level statements and non-vacuity examples live here). -/
+import SpoxModel.Lemmas.Renames
+import SpoxModel.Lemmas.Front
+import SpoxModel.Generated.RenamesIR
+/-!
+# C03 — the model's inputs and outputs are exactly what was requested
+
+Property theorems only. `build` is `Front.build` run through the IR of `_temporary_renames`
+extracted from /repo on this run; `π` stands for the iteration order of Python sets and is
+universally quantified (any permutation).
+-/
+namespace C03
+open Renames Front
+
+abbrev ir := Generated.RenamesIR.ir
+
+theorem generated_good : goodShape ir = true := by decide
+
+def info (P : List Obj) (e : Entry) : VInfo := ⟨e.name, tyOf P e.obj⟩
+
+/-- "some output depends on `a`, directly or through any depth of subgraph" (and `a` is not a formal
+    argument of a subgraph): membership in `all_arguments - claimed_arguments`; see `freeArgs_spec`. -/
+def dependsOn (P : List Obj) (outs : List Entry) (a : Nat) : Bool := (freeArgs P outs).contains a
+
+/-- A request the property's success/KeyError clauses talk about. -/
+structure WellFormed (P : List Obj) (req : Request) : Prop where
+  inputsArgs : ∀ e ∈ req.inputs, isArg P e.obj = true
+  outputsVars : ∀ e ∈ req.outputs, isVar P e.obj = true
+  outputsNonempty : req.outputs ≠ []
+  keysNodup : (req.inputs.map (·.name)).Nodup            -- dictionary keys
+  objsNodup : (req.inputs.map (·.obj)).Nodup             -- no Var under two keys
+  namesDisjoint : ∀ e ∈ req.outputs, e.name ∉ req.inputs.map (·.name)
+  programOk : (mainInfo P req.outputs).bad = false ∧
+    (∀ a ∈ (mainInfo P req.outputs).claimed, a ∉ (mainInfo P req.outputs).used)   -- no leaked body argument
+  notFormals : ∀ e ∈ req.inputs, e.obj ∉ (mainInfo P req.outputs).claimed
+
+/-- `drop_unused_inputs=False`: the graph inputs are exactly the entries of `inputs` — same names,
+    same order, same types. -/
+theorem inputs_exact (P : List Obj) (π : List Nat → List Nat) (fixed : Bool) (ins outs : List Entry)
+    (s : Store) (m : Model)
+    (h : (build ir P π fixed ⟨ins, outs, false⟩ s).2 = .ok m) :
+    m.inputs = ins.map (info P) := by
+  sorry
+
+/-- The graph outputs are exactly the entries of `outputs`, each bound to the Var it was given. -/
+theorem outputs_exact (P : List Obj) (π : List Nat → List Nat) (fixed : Bool) (req : Request)
+    (s : Store) (m : Model)
+    (h : (build ir P π fixed req s).2 = .ok m) :
+    m.outputs = req.outputs.map (info P) ∧ m.outVars = req.outputs.map (·.obj) := by
+  sorry
+
+/-- `drop_unused_inputs=True`: the graph inputs are exactly the entries on which some output
+    depends, **in their given relative order**, for every set-iteration order `π`. -/
+theorem inputs_dropped (P : List Obj) (π : List Nat → List Nat) (hπ : ∀ l, (π l).Perm l)
+    (ins outs : List Entry) (s : Store) (m : Model)
+    (hkeys : (ins.map (·.name)).Nodup) (hobjs : (ins.map (·.obj)).Nodup)
+    (hunnamed : ∀ v, v ∉ ins.map (·.obj) → s v = none)
+    (h : (build ir P π true ⟨ins, outs, true⟩ s).2 = .ok m) :
+    m.inputs = (ins.filter (fun e => dependsOn P outs e.obj)).map (info P) := by
+  sorry
+
+/-- the witness program: `y = op(b, a)` over two arguments `a` (id 0) and `b` (id 1) -/
+def exP : List Obj :=
+  [⟨true, false, "1:[]", [1, 0], []⟩, ⟨true, true, "1:[]", [], []⟩, ⟨true, true, "7:[]", [], []⟩]
+def exIns : List Entry := [⟨"a", 0⟩, ⟨"b", 1⟩]
+def exOuts : List Entry := [⟨"y", 2⟩]
+def inputsOf (r : Except Err Model) : Option (List VInfo) :=
+  match r with | .ok m => some m.inputs | .error _ => none
+
+/-- Before the fix (`fixed = false`) the order was that of the set: the statement above fails for
+    some `π` (here: the set happens to iterate newest first). -/
+theorem inputs_dropped_counterexample :
+    inputsOf (build ir exP id false ⟨exIns, exOuts, true⟩ (fun _ => none)).2
+      = some [⟨"b", "1:[]"⟩, ⟨"a", "7:[]"⟩] ∧
+    (exIns.filter (fun e => dependsOn exP exOuts e.obj)).map (info exP) = [⟨"a", "7:[]"⟩, ⟨"b", "1:[]"⟩] := by
+  decide
+
+/-- Non-vacuity: the same request on the fixed code, same `π`. -/
+example : inputsOf (build ir exP id true ⟨exIns, exOuts, true⟩ (fun _ => none)).2
+      = some [⟨"a", "7:[]"⟩, ⟨"b", "1:[]"⟩] := by decide
+
+/-- If some output depends on an argument that is not listed, build raises KeyError (both flag
+    values, every `π`). -/
+theorem missing_input_keyerror (P : List Obj) (π : List Nat → List Nat) (hπ : ∀ l, (π l).Perm l)
+    (fixed : Bool) (req : Request) (s : Store) (hwf : WellFormed P req)
+    (hunnamed : ∀ v, v ∉ req.inputs.map (·.obj) → s v = none)
+    (a : Nat) (ha : dependsOn P req.outputs a = true) (hmiss : a ∉ req.inputs.map (·.obj)) :
+    (build ir P π fixed req s).2 = .error .key := by
+  sorry
+
+/-- Inputs that are not arguments raise TypeError. -/
+theorem non_argument_typeerror (P : List Obj) (π : List Nat → List Nat) (fixed : Bool) (req : Request)
+    (s : Store) (e : Entry) (he : e ∈ req.inputs) (hna : isArg P e.obj = false) :
+    (build ir P π fixed req s).2 = .error .type := by
+  sorry
+
+/-- Outputs that are not Vars raise TypeError. -/
+theorem non_var_output_typeerror (P : List Obj) (π : List Nat → List Nat) (fixed : Bool) (req : Request)
+    (s : Store) (e : Entry) (he : e ∈ req.outputs) (hnv : isVar P e.obj = false) :
+    (build ir P π fixed req s).2 = .error .type := by
+  sorry
+
+/-- Non-vacuity of the success clauses: a well-formed request that lists every argument the
+    outputs depend on does build. -/
+theorem valid_request_builds (P : List Obj) (π : List Nat → List Nat) (hπ : ∀ l, (π l).Perm l)
+    (fixed : Bool) (req : Request) (s : Store) (hwf : WellFormed P req)
+    (hunnamed : ∀ v, v ∉ req.inputs.map (·.obj) → s v = none)
+    (hall : ∀ a, dependsOn P req.outputs a = true → a ∈ req.inputs.map (·.obj)) :
+    ∃ m, (build ir P π fixed req s).2 = .ok m := by
+  sorry
+
+end C03
